@@ -267,6 +267,7 @@ func consts() {
 		fmt.Printf("  (%s, %s, %v)%s\n", coqStr(t.fn), coqStr(t.via), t.clean, sep)
 	}
 	fmt.Println("].")
+	fmt.Printf("Definition commit_then_write_sites : list gname := %s.\n", coqStrList(commitThenWriteSites()))
 	fmt.Printf("Definition merge_scan_cmds : list gname := %s.\n", coqStrList(mscan))
 	fmt.Printf("Definition full_scan_cmds : list gname := %s.\n", coqStrList(mfull))
 	fmt.Printf("Definition merge_index_cmds : list gname := %s.\n", coqStrList(midx))
